@@ -659,6 +659,12 @@ func runScenario(sc *Scenario, r *zsimrt.Rand, replay []zsimrt.Decision) *Outcom
 			out.Probes["deadlock_after_injected_exit_or_panic"]++
 		}
 	}
+	for i := range dagProbe {
+		if dagProbe[i] > 0 {
+			out.Probes["parse_results_that_share_a_node_between_two_places"] += int(dagProbe[i])
+			dagProbe[i] = 0
+		}
+	}
 	out.Viol = first
 	out.Digest = h
 	for t := range w.fired {
